@@ -49,10 +49,15 @@ def instances(tier):
         for op in ops:
             if tier == "quick" and cls == "BooleanImage" and op not in ("crop", "rescale", "rotate", "mirror1", "warp_to_mask_affine"):
                 continue
+            if cls == "BooleanImage" and op == "gaussian_pyramid":
+                continue  # smoothing a mask yields a float image: not a boolean-image op
             out.append(("op", {"cls": cls, "op": op, "shape": [3, 4], "ch": 1 if cls != "Image" else 2}, big))
     # an all-true mask must be carried by the same mapping too (no shortcut may skip its resampling)
     for op in ("rotate_retain", "transform_about_centre_retain", "warp_to_shape_affine", "zoom", "mirror1", "rescale_to_diagonal"):
         out.append(("op", {"cls": "MaskedImage", "op": op, "shape": [3, 4], "ch": 1, "mask": "all"}, big))
+    for cls in CLASSES:
+        for op in ("warp_to_shape_affine", "warp_to_mask_affine", "warp_to_mask_pwa"):
+            out.append(("op", {"cls": cls, "op": op, "shape": [3, 4], "ch": 1, "batched": True}, big))
     # a piecewise-affine transform that is re-targeted between two warps
     for cls in ("Image", "MaskedImage"):
         out.append(("op", {"cls": cls, "op": "warp_to_mask_pwa_retarget", "shape": [3, 4], "ch": 1}, big))
@@ -164,12 +169,14 @@ def _run_op(F, img, cfg):
         return [img.transform_about_centre(mt2.Affine(h), retain_shape=False, round=F.choice("round", ["round", "ceil", "floor"]), **rt)]
     if op in ("mirror0", "mirror1"):
         return [img.mirror(axis=int(op[-1]), **rt)]
+    # the documented batch_size option of the warps (work split over batches of template points)
+    bs = dict(batch_size=F.choice("batch", [1, 4, 100])) if cfg.get("batched") else {}
     if op == "warp_to_shape_affine":
         tshape = tuple(F.choice("t%d" % k, [2, 3]) for k in range(nd))
-        return [img.warp_to_shape(tshape, _affine(F, nd), warp_landmarks=True, **rt)]
+        return [img.warp_to_shape(tshape, _affine(F, nd), warp_landmarks=True, **rt, **bs)]
     tmask = BooleanImage(np.array([[True, False, True], [True, True, False]]))
     if op == "warp_to_mask_affine":
-        return [img.warp_to_mask(tmask, _affine(F, nd), warp_landmarks=True, **rt)]
+        return [img.warp_to_mask(tmask, _affine(F, nd), warp_landmarks=True, **rt, **bs)]
     if op in ("warp_to_mask_pwa", "warp_to_shape_pwa", "warp_to_mask_pwa_retarget"):
         # template space -> image space; the image's landmarks sit inside the target triangles
         src = K.const(F, [[-1.0, -1.0], [4.0, -1.0], [-1.0, 4.0], [4.0, 4.0]])
@@ -177,7 +184,7 @@ def _run_op(F, img, cfg):
         tgt[3] = F.reals("pw", (2,), 4, 6)
         pwa = mt.PiecewiseAffine(TriMesh(src, np.array([[0, 1, 2], [1, 3, 2]]), copy=False), PointCloud(tgt, copy=False))
         if op == "warp_to_mask_pwa":
-            return [img.warp_to_mask(tmask, pwa, warp_landmarks=True, **rt)]
+            return [img.warp_to_mask(tmask, pwa, warp_landmarks=True, **rt, **bs)]
         if op == "warp_to_mask_pwa_retarget":
             first = img.warp_to_mask(tmask, pwa, warp_landmarks=True, **rt)
             tgt2 = tgt.copy()
